@@ -117,7 +117,7 @@ pub fn main(args: &[String]) -> i32 {
     obs::set_cpus(cpus);
     crate::util::watchdog::start(o.num("watchdog", 40));
     let mut rng = StdRng::seed_from_u64(seed);
-    let path = format!("{dir}/dev.feox");
+    let mut path = format!("{dir}/dev.feox");
     let _ = std::fs::remove_file(&path);
     if fmt < 3 {
         crate::seqdrv::create_legacy_device(&path, fmt, blocks);
@@ -133,7 +133,7 @@ pub fn main(args: &[String]) -> i32 {
     let mut nows: Vec<(u64, u64)> = Vec::new(); // (seq position marker via api event index, now)
     obs::install();
     feoxdb::verif::reset_io_calls();
-    let store = match build(&path, blocks, ttl, cache) {
+    let mut store = match build(&path, blocks, ttl, cache) {
         Ok(s) => s,
         Err(e) if fault_at >= 0 => {
             // the injected failure hit the start-up writes: the open reports it; once the device
@@ -173,6 +173,10 @@ pub fn main(args: &[String]) -> i32 {
         calls.push(CallInfo { kid: 1, key: key.clone(), gen: Some((r.timestamp, r.ttl_expiry, last)), deleted: false });
         obs::api("api_ret", &key, first_idx, 0, 0);
     }
+    let sessions: usize = o.num("sessions", 1);
+    let mut prev_raw: Vec<RawEv> = Vec::new();
+    let mut restart_reports: Vec<Value> = Vec::new();
+    for session in 0..sessions {
     for step in 0..steps {
         crate::util::watchdog::beat(&format!("crash workload step {step}"));
         let ki = rng.random_range(0..keys.len());
@@ -287,8 +291,68 @@ pub fn main(args: &[String]) -> i32 {
             now += rng.random_range(1..4) * (E9 / 2) + 1;
             feoxdb::verif::set_now(now);
             nows.push((0, now));
-            obs::api("tick", &[], now, 0, 0);
+            obs::api("vtick", &[], now, 0, 0);
         }
+    }
+    if session + 1 < sessions {
+        // ---- crash and restart: the process "dies" at a random device event of this session, some
+        // subset of the un-synced blocks reaches the platter, and the next session recovers that image
+        obs::uninstall();
+        let mut raw1 = obs::take();
+        drop(store);                       // (unobserved; the old file is abandoned)
+        let dev_idx: Vec<usize> = raw1.iter().enumerate().filter(|(_, e)| e.kind == "w" || e.kind == "fsync").map(|(i, _)| i).collect();
+        let cut = if dev_idx.is_empty() { raw1.len() } else { dev_idx[dev_idx.len() * 2 / 3 + rng.random_range(0..(dev_idx.len() - dev_idx.len() * 2 / 3))] + 1 };
+        raw1.truncate(cut);
+        let mut all = prev_raw.clone();
+        all.extend(raw1.iter().cloned());
+        let mut dev = ConcreteDev::new((blocks as usize) * L::BLOCK);
+        if fmt < 3 {
+            let meta = L::encode_meta(fmt, 0, 0, 0, blocks * 4096);
+            dev.durable[..4096].copy_from_slice(&meta);
+        }
+        for e in &all {
+            match e.kind {
+                "w" => dev.write(e.a, &e.data),
+                "fsync" => dev.fsync(),
+                "crash" => {
+                    let units: Vec<(usize, usize)> = serde_json::from_slice::<Vec<(usize, usize)>>(&e.data).unwrap_or_default();
+                    dev.durable = dev.image(&units);
+                    dev.pending.clear();
+                }
+                _ => {}
+            }
+        }
+        let units = dev.units();
+        let chosen: Vec<(usize, usize)> = match rng.random_range(0..3) {
+            0 => Vec::new(),
+            1 => units.clone(),
+            _ => units.iter().copied().filter(|_| rng.random_bool(0.5)).collect(),
+        };
+        let img = dev.image(&chosen);
+        path = format!("{dir}/dev_s{}.feox", session + 1);
+        std::fs::write(&path, &img).expect("write restart image");
+        raw1.push(RawEv { seq: 0, tid: 0, kind: "crash", key: Vec::new(), a: 0, b: 0, c: 0, data: serde_json::to_vec(&chosen).unwrap() });
+        prev_raw.extend(raw1);
+        prev_raw.push(RawEv { seq: 0, tid: 0, kind: "vtick", key: Vec::new(), a: now, b: 0, c: 0, data: Vec::new() });
+        obs::install();
+        store = match build(&path, blocks, ttl, cache) {
+            Ok(s) => s,
+            Err(e) => {
+                // the crash image cannot be reopened: the trace up to here shows it (CrashOpens)
+                eprintln!("restart failed: {e:?}");
+                obs::uninstall();
+                let raw: Vec<RawEv> = prev_raw.clone();
+                let code = emit_trace(&o, &raw, &calls, &flushes, &keys, fmt, ttl, blocks, &dir, &out_path, max_exh, max_images, 1_000 * E9, cc, nested_max, &restart_reports);
+                return code;
+            }
+        };
+        cur_val.clear();
+        for (i, k) in keys.iter().enumerate() {
+            if let Ok(v) = store.get(k) { cur_val.insert(i + 1, v); }
+        }
+        restart_reports.push(store_report(&store, &keys));
+        obs::api("restarted", &[], restart_reports.len() as u64 - 1, now, 0);
+    }
     }
     if noflush {
         // C19: no explicit flush; everything acknowledged `settle` ms ago must be durable
@@ -333,7 +397,8 @@ pub fn main(args: &[String]) -> i32 {
         }
     }
     obs::uninstall();
-    let raw = obs::take();
+    let mut raw = prev_raw;
+    raw.extend(obs::take());
     if let Some(lp) = o.get("lockout") {
         // C18: lock-ownership events per thread, for the lock-order model
         use std::io::Write as _;
@@ -346,7 +411,7 @@ pub fn main(args: &[String]) -> i32 {
     }
     let total_blocks = blocks;
     let io_calls = feoxdb::verif::io_calls();
-    let code = emit_trace(&o, &raw, &calls, &flushes, &keys, fmt, ttl, total_blocks, &dir, &out_path, max_exh, max_images, 1_000 * E9, cc, nested_max);
+    let code = emit_trace(&o, &raw, &calls, &flushes, &keys, fmt, ttl, total_blocks, &dir, &out_path, max_exh, max_images, 1_000 * E9, cc, nested_max, &restart_reports);
     println!("{}", json!({"io_calls": io_calls}));
     if let Some(h) = heal {
         use std::io::Write as _;
@@ -428,6 +493,7 @@ fn emit_trace(
     start_now: u64,
     cc: bool,
     nested_max: usize,
+    restart_reports: &[Value],
 ) -> i32 {
     // ---- time ranks
     let mut times: BTreeSet<u64> = BTreeSet::new();
@@ -439,7 +505,7 @@ fn emit_trace(
         }
     }
     for e in raw {
-        if e.kind == "tick" { times.insert(e.a); }
+        if e.kind == "vtick" { times.insert(e.a); }
     }
     let rank: HashMap<u64, usize> = times.iter().enumerate().map(|(i, t)| (*t, i + 1)).collect();
     let rk = |t: u64| -> usize { if t == 0 { 0 } else { *rank.get(&t).unwrap_or(&0) } };
@@ -458,6 +524,8 @@ fn emit_trace(
         events.push(json!({"e": "fsync"}));
     }
     let mut now = start_now;
+    let mut flush_pos: HashMap<u64, u64> = HashMap::new();
+    let mut drops: u64 = 0;
     let mut cuts: Vec<Cut> = Vec::new();
     let mut nimg = 0usize;
     let mut stats_pending_max = 0usize;
@@ -481,7 +549,10 @@ fn emit_trace(
                     events.push(json!({"e": "ret", "k": calls[e.a as usize].kid}));
                 }
             }
-            "flush_begin" => events.push(json!({"e": "flush_begin", "id": e.a})),
+            "flush_begin" => {
+                flush_pos.insert(e.a, flush_pos.len() as u64 + drops);
+                events.push(json!({"e": "flush_begin", "id": flush_pos[&e.a]}));
+            }
             "flush_end" | "settled" => {
                 let f = &flushes[e.a as usize];
                 let mut snap = f.snap.clone();
@@ -499,18 +570,36 @@ fn emit_trace(
                     json!({"k": kid, "g": g, "at": r["at"], "n": n, "resident": r["resident"]})
                 }).collect();
                 snap["recs"] = json!(recs);
-                events.push(json!({"e": e.kind, "id": e.a, "ok": f.ok, "snap": snap}));
+                events.push(json!({"e": e.kind, "id": flush_pos.get(&e.a).copied().unwrap_or(0), "ok": f.ok, "snap": snap}));
             }
             "reads" => events.push(json!({"e": "reads", "bad": e.a})),
             "fault" => events.push(json!({"e": "fault", "io": e.a, "mode": e.b})),
-            "tick" => {
+            "vtick" => {
                 now = e.a;
                 events.push(json!({"e": "tick", "now": rk(now)}));
             }
-            "drop_begin" => events.push(json!({"e": "drop_begin"})),
+            "drop_begin" => {
+                drops += 1;
+                events.push(json!({"e": "drop_begin"}));
+            }
             "final_flush_fail" => events.push(json!({"e": "final_flush_fail", "which": e.b})),
             "drop_end" => events.push(json!({"e": "drop_end"})),
             "abandon" => events.push(json!({"e": "abandon"})),
+            "restarted" => {
+                // what the restarted store exposes: judged like any real recovery, then adopted as
+                // the current state of every key
+                let c = Cut { at_event: 0, now: e.b, units: Vec::new(), img: String::new() };
+                let ev = rec_event(&c, &restart_reports[e.a as usize], keys, &gens, &rk);
+                let kv = ev["res"]["kv"].clone();
+                events.push(ev);
+                events.push(json!({"e": "adopt", "kv": kv}));
+            }
+            "crash" => {
+                let units: Vec<(usize, usize)> = serde_json::from_slice::<Vec<(usize, usize)>>(&e.data).unwrap_or_default();
+                dev.durable = dev.image(&units);
+                dev.pending.clear();
+                events.push(json!({"e": "crash", "units": units.iter().map(|(a, b)| vec![*a, *b]).collect::<Vec<_>>()}));
+            }
             "w" => {
                 dev.write(e.a, &e.data);
                 events.push(json!({"e": "w", "w": absdev::classify_write(e.a, &e.data, fmt, total_blocks, &gens)}));
@@ -704,22 +793,7 @@ pub fn recover_main(args: &[String]) -> i32 {
             Err(_) => json!({"ok": false, "err": "Panic", "recs": [], "len": 0, "extra": 0}),
             Ok(Err(e)) => json!({"ok": false, "err": crate::util::err_name(&e), "recs": [], "len": 0, "extra": 0}),
             Ok(Ok(store)) => {
-                let snap = store.verif_snapshot();
-                let recs: Vec<Value> = keys.iter().map(|k| {
-                    match store.verif_record(k) {
-                        Some(r) => {
-                            let (vh, vl) = match store.get(k) {
-                                Ok(v) => (L::hash64(&v), v.len()),
-                                Err(_) => (0, usize::MAX >> 8),
-                            };
-                            json!({"p": true, "ts": r.timestamp, "exp": r.ttl_expiry, "vlen": vl, "vhash": vh, "at": r.sector})
-                        }
-                        None => json!({"p": false}),
-                    }
-                }).collect();
-                let extra = snap.iter().filter(|r| !keys.contains(&r.key)).count();
-                let line = json!({"ok": true, "err": "", "recs": recs, "len": store.len(), "extra": extra,
-                                  "free": store.verif_free_runs()});
+                let line = store_report(&store, &keys);
                 std::mem::forget(store);
                 line
             }
@@ -853,4 +927,23 @@ pub fn chunkrec_main(args: &[String]) -> i32 {
     println!("{}", json!({"keys": n, "recovery_writes": wl.len(), "fsync_cuts": cuts.len(),
         "first_recovery_len": r0[0]["len"], "len_after_each_cut": exposed}));
     0
+}
+
+/// What a freshly opened store exposes (per key: version, expiry, value hash, sector) and its free runs.
+fn store_report(store: &FeoxStore, keys: &[Vec<u8>]) -> Value {
+    let snap = store.verif_snapshot();
+    let recs: Vec<Value> = keys.iter().map(|k| {
+        match store.verif_record(k) {
+            Some(r) => {
+                let (vh, vl) = match store.get(k) {
+                    Ok(v) => (L::hash64(&v), v.len()),
+                    Err(_) => (0, usize::MAX >> 8),
+                };
+                json!({"p": true, "ts": r.timestamp, "exp": r.ttl_expiry, "vlen": vl, "vhash": vh, "at": r.sector})
+            }
+            None => json!({"p": false}),
+        }
+    }).collect();
+    let extra = snap.iter().filter(|r| !keys.contains(&r.key)).count();
+    json!({"ok": true, "err": "", "recs": recs, "len": store.len(), "extra": extra, "free": store.verif_free_runs()})
 }
